@@ -6,6 +6,7 @@ package main
 import (
 	"fmt"
 	"go/ast"
+	"go/constant"
 	"go/token"
 	"go/types"
 	"os"
@@ -913,14 +914,59 @@ func ruleRepStackEscape(c *Ctx, r *R) {
 								}
 							}
 						}
+						// ... or by an earlier sibling `if recv.value == nil { ...; break }` that leaves
+						if !guarded {
+							var stmt ast.Node = call
+							for p := c.Parent(call); p != nil; stmt, p = p, c.Parent(p) {
+								blkList := []ast.Stmt(nil)
+								switch b := p.(type) {
+								case *ast.BlockStmt:
+									blkList = b.List
+								case *ast.CaseClause:
+									blkList = b.Body
+								}
+								if blkList == nil {
+									continue
+								}
+								for _, st := range blkList {
+									if st.Pos() >= stmt.Pos() {
+										break
+									}
+									ifs, ok := st.(*ast.IfStmt)
+									if !ok || ifs.Init != nil || len(ifs.Body.List) == 0 {
+										continue
+									}
+									be, ok := unparen(ifs.Cond).(*ast.BinaryExpr)
+									if !ok || be.Op != token.EQL || nosp(c.Src(be.X)) != recv+".value" || !isIdent(be.Y, "nil") {
+										continue
+									}
+									switch last := ifs.Body.List[len(ifs.Body.List)-1].(type) {
+									case *ast.BranchStmt:
+										if last.Tok == token.BREAK || last.Tok == token.CONTINUE {
+											guarded = true
+										}
+									case *ast.ReturnStmt:
+										guarded = true
+									}
+								}
+								break
+							}
+						}
 						// ... and the non-nil receiver is a script slice (sliceT.Append copies the items out of
 						// the view) or was given items of its own: Value.Append dispatches to whatever Object
 						// the value holds, and a host object may keep what it is handed
 						ownItems := false
 						if guarded {
 							argID, _ := unparen(a).(*ast.Ident)
-							if blk, ok := c.Parent(c.Parent(call)).(*ast.BlockStmt); ok && argID != nil {
-								for _, st := range blk.List {
+							var sibs []ast.Stmt
+							switch b := c.Parent(c.Parent(call)).(type) {
+							case *ast.BlockStmt:
+								sibs = b.List
+							case *ast.CaseClause:
+								sibs = b.Body
+							}
+							if argID != nil {
+								for _, st := range sibs {
 									if st.Pos() >= call.Pos() {
 										break
 									}
@@ -1395,7 +1441,30 @@ func ruleRepString(c *Ctx, r *R) {
 	}
 	r.check(anyContains(rets, "String(string(rune(v.num)))"), "convert rune->string", c.Pos(c.Func("Value.convert")), "string(rune(x))", "string(number) is not string(rune(x))")
 	r.check(anyContains(rets, "[]byte(Value.String(v))"), "convert string->[]byte", c.Pos(c.Func("Value.convert")), "[]byte(s)", "[]byte(string) is not Go's conversion of the string's bytes")
-	r.check(anyContains(rets, "String(string(b))") || anyContains(rets, "String(string(builtin.make(type:[]byte"), "convert []byte->string", c.Pos(c.Func("Value.convert")), "string(bytes)", "string([]byte) is not Go's conversion")
+	// ... or, whatever the temporaries are called and wherever the loop lives: Value.convert (or a
+	// new helper it calls) applies Go's string(x) to a []byte
+	bytesConv := false
+	if cfd := c.Func("Value.convert"); cfd != nil {
+		for _, h := range c.withHelpers(cfd) {
+			ast.Inspect(h.Body, func(n ast.Node) bool {
+				call, ok := n.(*ast.CallExpr)
+				if !ok || len(call.Args) != 1 {
+					return true
+				}
+				if tt, isConv := c.IsConversion(call); isConv {
+					if b, ok := tt.Underlying().(*types.Basic); ok && b.Kind() == types.String {
+						if sl, ok := c.TypeOf(call.Args[0]).Underlying().(*types.Slice); ok {
+							if eb, ok := sl.Elem().Underlying().(*types.Basic); ok && eb.Kind() == types.Uint8 {
+								bytesConv = true
+							}
+						}
+					}
+				}
+				return true
+			})
+		}
+	}
+	r.check(bytesConv || anyContains(rets, "String(string(b))") || anyContains(rets, "String(string(builtin.make(type:[]byte"), "convert []byte->string", c.Pos(c.Func("Value.convert")), "string(bytes)", "string([]byte) is not Go's conversion")
 	// immutability: no method of stringT assigns through s
 	mut := false
 	for _, name := range c.FuncNames() {
@@ -2379,43 +2448,18 @@ func ruleRepMapIdent(c *Ctx, r *R) {
 	} else {
 		r.undecided("Range key", "-", "numericMap.Range not found")
 	}
-	// (d) mapType packs the kind of the key only
-	if fd := c.Func("mapType"); fd != nil && fd.Type.Params != nil && len(fd.Type.Params.List) > 0 {
-		keyObj := c.Info.Defs[fd.Type.Params.List[0].Names[0]]
-		n, good := 0, true
-		ast.Inspect(fd.Body, func(m ast.Node) bool {
-			be, ok := m.(*ast.BinaryExpr)
-			if !ok || be.Op != token.SHL {
-				return true
-			}
-			usesKey := false
-			ast.Inspect(be.X, func(k ast.Node) bool {
-				if id, ok := k.(*ast.Ident); ok && c.Obj(id) == keyObj {
-					usesKey = true
-				}
-				return true
-			})
-			if !usesKey {
-				return true
-			}
-			n++
-			x := unparen(be.X)
-			masked := false
-			if call, ok := x.(*ast.CallExpr); ok && c.CalleeName(call) == "Type.base" {
-				masked = true
-			}
-			if b2, ok := x.(*ast.BinaryExpr); ok && b2.Op == token.AND {
-				masked = true
-			}
-			if !masked {
-				good = false
-			}
-			return true
-		})
-		if n == 0 {
-			r.undecided("mapType key", c.Pos(fd), "no shift of the key type found")
+	// (d) mapType packs the kind of the key only: evaluated as a function on constants, the
+	// result does not depend on the bits of the key type above its kind
+	if fd := c.Func("mapType"); fd != nil && fd.Body != nil {
+		tags := c.typeTags()
+		st, i32 := tags["TypeStruct"], tags["TypeInt32"]
+		plain, ok1 := c.evalFuncConst(fd, []constant.Value{constant.MakeInt64(st), constant.MakeInt64(i32)})
+		ptr, ok2 := c.evalFuncConst(fd, []constant.Value{constant.MakeInt64(st | 13<<8), constant.MakeInt64(i32)})
+		other, ok3 := c.evalFuncConst(fd, []constant.Value{constant.MakeInt64(st), constant.MakeInt64(tags["TypeFloat64"])})
+		if !ok1 || !ok2 || !ok3 || st == 0 {
+			r.undecided("mapType key", c.Pos(fd), "cannot evaluate mapType on constants")
 		} else {
-			r.check(good, "mapType key", c.Pos(fd), "only the kind of the key type is packed",
+			r.check(constant.Compare(plain, token.EQL, ptr) && !constant.Compare(plain, token.EQL, other), "mapType key", c.Pos(fd), "only the kind of the key type is packed",
 				"mapType shifts the whole key type into a one-byte field: a `*T` key type carries the index of T in its upper bits, which are OR-ed into the value type — with T at a global index with bit 3 set, map[*T]int becomes a map of float64")
 		}
 	} else {
